@@ -22,7 +22,7 @@ ASSUMPTIONS = [
     "layout of banks 0/1 from IEC 62386-102 Table 9 / 9.10.7 and DiiA 251; banks 202-207 recalled from DiiA 252/253 and reviewed against the tree (flag columns pinned)",
     "inverse direction is demanded only for plain numbers and strings (statement); TemperatureValue/FixedScaleNumericValue.value_to_raw not applying the inverse offset/scale is recorded as an observation",
 ]
-BOUNDS = {"quick": "widths 1-2 exhaustive; wider: 8^4 outer-byte product x 3 middles + boundaries", "thorough": "same + 12^4 outer-byte product x 5 middles, strings with two special bytes"}
+BOUNDS = {"quick": "widths 1-2 exhaustive; wider: 8^4 outer-byte product x 3 middles + boundaries", "thorough": "widths 1-3 exhaustive (2^24 raws for each 3-byte value); 12^4 outer-byte product x 5 middles for wider ones, strings with two special bytes"}
 
 
 def lib_values():
@@ -41,6 +41,9 @@ def shards(tier):
         if w == 2:
             for p in range(4):
                 out.append(("value", r[0], r[1], tier, p, 4))
+        elif w == 3 and tier == "thorough":
+            for p in range(64):
+                out.append(("value", r[0], r[1], tier, p, 64))
         else:
             out.append(("value", r[0], r[1], tier, 0, 1))
     out.append(("inverse", tier))
@@ -54,6 +57,8 @@ def raws_for(row, tier):
         return (bytes([a]) for a in range(256))
     if w == 2:
         return (bytes([a, b]) for a in range(256) for b in range(256))
+    if w == 3 and tier == "thorough":
+        return (n.to_bytes(3, "big") for n in range(1 << 24))
     A = [0x00, 0x01, 0x7E, 0x7F, 0x80, 0xFD, 0xFE, 0xFF]
     if tier == "thorough":
         A = A + [0x06, 0x07, 0xF9, 0xFA]
@@ -174,7 +179,13 @@ def run_shard(shard):
             res["evaluations"] = 1
             return res
         n = 0
-        for i, raw in enumerate(raws_for(row, tier)):
+        if M.width(row) == 3 and tier == "thorough":
+            span = (1 << 24) // parts
+            it = ((0, v.to_bytes(3, "big")) for v in range(part * span, (part + 1) * span))
+            parts, part = 1, 0
+        else:
+            it = enumerate(raws_for(row, tier))
+        for i, raw in it:
             if i % parts != part:
                 continue
             r = check_value(res, cls, row, raw)
